@@ -602,13 +602,17 @@ def insertSorted (key : ANode → String) (x : ANode) : List ANode → List ANod
 /-- Stable sort by key (`sort_by_key`): insertion from the right keeps equal keys in order. -/
 def stableSort (key : ANode → String) (l : List ANode) : List ANode := l.foldr (insertSorted key) []
 
+/-- The guard of `convert_import_items`: no comment among the nodes and no name bound twice. -/
+def importSortable (nodes : List ANode) : Bool :=
+  nodes.all (fun n => !isCommentKind n.kind) && noDupNames nodes []
+
+/-- The order in which `convert_import_items` hands the flattened nodes to the list stylist. -/
+def importOrder (cfg : Config) (nodes : List ANode) : List ANode :=
+  if cfg.reorder && importSortable nodes then stableSort ANode.intoText nodes else nodes
+
 /-- `convert_import_items`. -/
 def convImportItems (e : Env) (ctx : Ctx) (nodes : List ANode) : M Doc := do
-  let nodes :=
-    if e.cfg.reorder && nodes.all (fun n => !isCommentKind n.kind) && noDupNames nodes [] then
-      stableSort ANode.intoText nodes
-    else nodes
-  let ls ← ({} : LS).processM e ctx nodes (importItem e)
+  let ls ← ({} : LS).processM e ctx (importOrder e.cfg nodes) (importItem e)
   pure (ls.print e { e.parenStyle with omitDelimFlat := true, omitDelimEmpty := true })
 
 def importPrefixProducer (e : Env) (r : Rec) (_ : Unit) (c : Ctx) (child : ANode) : M (Unit × Option FlowItem) := do
